@@ -58,3 +58,20 @@ Theorem C09_config : forall B pref a b c1 c2 J w,
     agg_config RN B pref (rscale (vaddR (vscaleR a c1) (vscaleR b c2)) J) = Ok (vaddR (vscaleR a v1) (vscaleR b v2)).
 Proof. exact config_linear_under_scaling. Qed.
 Print Assumptions C09_config.
+
+(* ---- UPGrad (added): WITHOUT regularisation the map c -> A(diag(c) J) is exactly linear on positive
+   vectors — the idealisation behind "the defect vanishes as reg_eps -> 0".  For ANY QP oracle that
+   returns minimisers on the four matrices involved (each with its own sigma_max) ---- *)
+From TJ.proofs Require Import C03Proofs C08Proofs C11Proofs EquivarianceProofs MgdaProofs PublishedProofs ImpartialProofs SpectralProofs.
+Theorem C09_upgrad_unregularised : forall n J qp pref s s1 s2 s12 ne a b c1 c2 u,
+  wfmat n J -> J <> [] -> length c1 = length J -> length c2 = length J ->
+  allpos c1 -> allpos c2 -> 0 < a -> 0 < b ->
+  pref_weights pref (mean_weights RN (length J)) (length J) = Ok u ->
+  let c12 := vaddR (vscaleR a c1) (vscaleR b c2) in
+  qp_unreg_ok qp J s ne u -> qp_unreg_ok qp (rscale c1 J) s1 ne u ->
+  qp_unreg_ok qp (rscale c2 J) s2 ne u -> qp_unreg_ok qp (rscale c12 J) s12 ne u ->
+  exists x1 x2, agg_upgrad RN qp pref s1 ne 0 (rscale c1 J) = Ok x1 /\
+    agg_upgrad RN qp pref s2 ne 0 (rscale c2 J) = Ok x2 /\
+    agg_upgrad RN qp pref s12 ne 0 (rscale c12 J) = Ok (vaddR (vscaleR a x1) (vscaleR b x2)).
+Proof. exact agg_upgrad_unreg_linear_under_scaling. Qed.
+Print Assumptions C09_upgrad_unregularised.
